@@ -29,6 +29,8 @@ type Program struct {
 	Pures     map[string]*PureFunc     // by pkgpath.name
 	Funcs     map[string]*ssa.Function // by key
 	Universe  *Universe
+	relCache  map[string][]string
+	relBusy   map[string]bool
 }
 
 func loadProgram(repo string) (*Program, error) {
@@ -125,6 +127,12 @@ func loadProgram(repo string) (*Program, error) {
 		}
 		for _, c := range pc.Contracts {
 			all := [][]*Clause{c.Lets, c.Requires, c.Ensures, c.Assigns}
+			for _, g := range append(append([]*Clause{}, c.GEntry...), c.GReturn...) {
+				all = append(all, []*Clause{g, g.Target})
+				if g.Cond != nil {
+					all = append(all, []*Clause{g.Cond})
+				}
+			}
 			for _, lc := range c.Loops {
 				all = append(all, lc.Invariants)
 				if lc.Decreases != nil {
